@@ -264,7 +264,7 @@ def run(ctx):
           ctx.count('correspondence_exact', 0, failures=1)
           ctx.break_tie('correspondence', 'c16', "model and implementation choose different thresholds on %s" % dict(
               dist=rec['dist'].tolist(), y=rec['y'].tolist(), strategy=rec['strategy'], params=rec['params'], impl=rec['thr']))
-  if not ok or thorough or nfound == 0:
+  if not ctx.property_ok or thorough or nfound == 0:
     for rec in recs:
       if falsify(rec, 'optimal_threshold'):
         nfound += 1
